@@ -8,13 +8,13 @@ require (
 	golang.org/x/mod v0.24.0
 	golang.org/x/text v0.24.0
 	golang.org/x/tools v0.32.0
+	mvdan.cc/gofumpt v0.8.0
 )
 
 require (
 	github.com/go-courier/logr v0.3.2 // indirect
 	github.com/google/go-cmp v0.7.0 // indirect
 	golang.org/x/sync v0.13.0 // indirect
-	mvdan.cc/gofumpt v0.8.0 // indirect
 )
 
 replace github.com/octohelm/gengo => /repo
